@@ -1,6 +1,8 @@
 package cmd
 
 import (
+	"fmt"
+
 	"github.com/evolbioinfo/goalign/align"
 	"github.com/evolbioinfo/goalign/io"
 	"github.com/evolbioinfo/goalign/io/utils"
@@ -54,6 +56,11 @@ goalign reformat fasta -i align.fasta
 			a := <-aligns.Achan
 			if aligns.Err != nil {
 				err = aligns.Err
+				io.LogError(err)
+				return
+			}
+			if a == nil {
+				err = fmt.Errorf("no alignment in the input file")
 				io.LogError(err)
 				return
 			}
